@@ -170,6 +170,14 @@ class RuntimeContract:
             raised = ex
         if raised is not None:
             name = type(raised).__name__
+            if name not in when:
+                # a clause for a base class (e.g. 'Exception') covers its subclasses
+                import builtins
+                for decl in list(when) + list(self.may_raise):
+                    cls = getattr(builtins, decl, None)
+                    if isinstance(cls, type) and isinstance(raised, cls):
+                        name = decl
+                        break
             if name in when:
                 if not when[name]:
                     raise ContractViolation(f'raises:{name}:raised=>when',
